@@ -32,7 +32,9 @@ HOSTILE = ['\\', '\\0', '\\110000', '\\d800', '\\ffffff', '\\ffffff0', '"', "'",
            '--', ':--', '\\)', 'n', '-n', '+', '\ud800', '\U0010ffff', '^=', '$=', '|=', '~=', ' i]', '@page', '@P',
            '::before', '\t', '{', '}', '%', '2n+1', 'even', '0x', '\\26 ',
            # complete comments, also straight after a hex escape (where the grammar allows white space *or* a comment)
-           '/**/', '/* c */', '\\41/**/', '\\a /**/', '\\10ffff/***/']
+           '/**/', '/* c */', '\\41/**/', '\\a /**/', '\\10ffff/***/',
+           # decimal digits that are not ASCII (\d matches them, [0-9] does not), alone and as An+B arguments
+           '\u0663', '\uff12', '\u0967\u0966', ':nth-child(\u0663)', ':nth-last-of-type(-\u0be8n + 3)', '\u0662n+1']
 
 ALLOWED = (sv.SelectorSyntaxError, NotImplementedError)
 CUSTOM_OK = {':--foo': 'p > a', ':--bar': ':--foo:is(b)'}
